@@ -258,4 +258,774 @@ Proof.
     + intros; apply H; now right.
 Qed.
 
+(* ---- linear sharing ---------------------------------------------------------------------- *)
+
+Definition rows_wf (d : nat) (rs : list VEC) : Prop := forall r, In r rs -> length r = d.
+
+Lemma rows_wf_b_ok : forall d rs, rows_wf_b d rs = true -> rows_wf d rs.
+Proof.
+  unfold rows_wf_b, rows_wf. intros d rs H r Hr. rewrite forallb_forall in H.
+  apply Nat.eqb_eq. now apply H.
+Qed.
+
+Lemma wf_rows : forall (sh : SH) i, wf_sharing_b sh = true -> rows_wf (sh_dim sh) (rows sh i).
+Proof.
+  intros sh i H. unfold wf_sharing_b in H. apply andb_true_iff in H. destruct H as [_ H].
+  unfold rows. destruct (lookup i (sh_tab sh)) eqn:E; [|intros r []].
+  apply lookup_In in E. rewrite forallb_forall in H. apply rows_wf_b_ok. exact (H _ E).
+Qed.
+
+Lemma wf_dim_pos : forall sh : SH, wf_sharing_b sh = true -> (0 < sh_dim sh)%nat.
+Proof.
+  intros sh H. unfold wf_sharing_b in H. apply andb_true_iff in H. destruct H as [H _]. now apply Nat.ltb_lt in H.
+Qed.
+
+Lemma share_of_length : forall (sh : SH) c i, length (share_of K sh c i) = length (rows sh i).
+Proof. intros. unfold share_of. apply map_length. Qed.
+
+Lemma map_dot_vadd : forall (rs : list VEC) c1 c2, length c1 = length c2 ->
+  map (fun r => dot K r (vadd K c1 c2)) rs = vadd K (map (fun r => dot K r c1) rs) (map (fun r => dot K r c2) rs).
+Proof.
+  induction rs as [|r rs IH]; intros c1 c2 H; cbn; [reflexivity|].
+  rewrite dot_vadd_r by assumption. f_equal. now apply IH.
+Qed.
+
+Lemma share_of_vadd : forall (sh : SH) c1 c2 i, length c1 = length c2 ->
+  share_of K sh (vadd K c1 c2) i = vadd K (share_of K sh c1 i) (share_of K sh c2 i).
+Proof. intros. unfold share_of. now apply map_dot_vadd. Qed.
+
+Lemma share_of_vzero : forall (sh : SH) n i, share_of K sh (vzero K n) i = vzero K (length (rows sh i)).
+Proof.
+  intros. unfold share_of. induction (rows sh i) as [|r rs IH]; cbn; [reflexivity|].
+  f_equal; [|exact IH]. clear IH. revert n. induction r as [|x r IHr]; intros n; cbn; [reflexivity|].
+  destruct n; cbn; [reflexivity|]. unfold vzero in IHr. rewrite IHr. ring.
+Qed.
+
+Lemma share_of_vsum : forall (sh : SH) n (l : list VEC) i, (forall v, In v l -> length v = n) ->
+  share_of K sh (vsum K n l) i = vsum K (length (rows sh i)) (map (fun c => share_of K sh c i) l).
+Proof.
+  induction l as [|v l IH]; intros i H.
+  - apply share_of_vzero.
+  - rewrite vsum_cons. cbn [map]. rewrite vsum_cons. rewrite share_of_vadd.
+    + f_equal. apply IH. intros; apply H; now right.
+    + rewrite (H v) by now left. symmetry. apply vsum_length. intros; apply H; now right.
+Qed.
+
+Lemma lincomb_length : forall d cs (rs : list VEC), rows_wf d rs -> length (lincomb K d cs rs) = d.
+Proof.
+  induction cs as [|c cs IH]; intros rs H; cbn; [apply vzero_length|].
+  destruct rs as [|r rs]; [apply vzero_length|].
+  apply vadd_length_eq.
+  - rewrite vscale_length. apply H. now left.
+  - apply IH. intros r' Hr'. apply H. now right.
+Qed.
+
+Lemma dot_lincomb : forall d cs (rs : list VEC) c, rows_wf d rs ->
+  dot K cs (map (fun r => dot K r c) rs) = dot K (lincomb K d cs rs) c.
+Proof.
+  induction cs as [|x cs IH]; intros rs c H; cbn.
+  - now rewrite dot_vzero_l.
+  - destruct rs as [|r rs]; cbn; [now rewrite dot_vzero_l|].
+    rewrite dot_vadd_l.
+    + rewrite dot_vscale_l. rewrite (IH rs c); [reflexivity|]. intros r' Hr'. apply H. now right.
+    + rewrite vscale_length, lincomb_length; [apply H; now left|]. intros r' Hr'. apply H. now right.
+Qed.
+
+Lemma recon_share_of : forall (sh : SH) S lam c, wf_sharing_b sh = true ->
+  recon K S lam (share_of K sh c) = dot K (comb K sh S lam) c.
+Proof.
+  intros sh S lam c W. unfold recon, comb.
+  rewrite dot_vsum_l.
+  - rewrite map_map. apply fsum_map_ext. intros i _. unfold additive, share_of.
+    apply dot_lincomb. now apply wf_rows.
+  - intros v Hv. apply in_map_iff in Hv. destruct Hv as [i [E _]]. subst.
+    apply lincomb_length. now apply wf_rows.
+Qed.
+
+Lemma reconstructs_comb : forall (sh : SH) S lam, reconstructs_b K sh S lam = true -> comb K sh S lam = e0 K (sh_dim sh).
+Proof.
+  intros sh S lam H. unfold reconstructs_b in H. apply andb_true_iff in H. destruct H as [_ H]. now apply veqb_eq.
+Qed.
+
+Lemma reconstructs_holders : forall (sh : SH) S lam i, reconstructs_b K sh S lam = true -> In i S ->
+  In i (holders sh) /\ length (coef_of lam i) = length (rows sh i).
+Proof.
+  intros sh S lam i H Hi. unfold reconstructs_b in H. apply andb_true_iff in H. destruct H as [H _].
+  rewrite forallb_forall in H. specialize (H i Hi). apply andb_true_iff in H. destruct H as [H1 H2].
+  split; [now apply mem_In|now apply Nat.eqb_eq].
+Qed.
+
+(* a reconstructing set recovers the first entry of the dealt column *)
+Lemma recon_correct : forall (sh : SH) S lam c, wf_sharing_b sh = true -> reconstructs_b K sh S lam = true ->
+  recon K S lam (share_of K sh c) = hd0 K c.
+Proof.
+  intros sh S lam c W R. rewrite recon_share_of by assumption. rewrite (reconstructs_comb _ _ _ R).
+  apply dot_e0. now apply wf_dim_pos.
+Qed.
+
+Lemma recon_ext : forall S lam (f g : N -> list F), (forall i, In i S -> f i = g i) -> recon K S lam f = recon K S lam g.
+Proof. intros. unfold recon. apply fsum_map_ext. intros i Hi. now rewrite H. Qed.
+
+Lemma verify_share_of : forall (sh : SH) i c, In i (holders sh) -> length c = sh_dim sh -> verify K sh i (share_of K sh c i) c = true.
+Proof.
+  intros sh i c Hi Hc. unfold verify. apply andb_true_iff. split; [apply andb_true_iff; split|].
+  - now apply mem_In.
+  - now apply Nat.eqb_eq.
+  - now apply veqb_eq.
+Qed.
+
+Lemma verify_inv : forall (sh : SH) i s v, verify K sh i s v = true -> In i (holders sh) /\ length v = sh_dim sh /\ s = share_of K sh v i.
+Proof.
+  intros sh i s v H. unfold verify in H. apply andb_true_iff in H. destruct H as [H H3].
+  apply andb_true_iff in H. destruct H as [H1 H2].
+  split; [now apply mem_In|]. split; [now apply Nat.eqb_eq|now apply veqb_eq].
+Qed.
+
+Lemma deal_col_spec : forall d (s : F) rnd c, deal_col d s rnd = Some c -> length c = d /\ hd0 K c = s /\ tl c = tl rnd /\ (0 < d)%nat.
+Proof.
+  intros d s rnd c H. unfold deal_col in H.
+  destruct (Nat.eqb (length rnd) d && Nat.ltb 0 d) eqn:E; [|discriminate].
+  inversion H; subst. apply andb_true_iff in E. destruct E as [E1 E2].
+  apply Nat.eqb_eq in E1. apply Nat.ltb_lt in E2. destruct rnd; cbn in *; [lia|]. repeat split; auto.
+Qed.
+
+(* ---- a sum with one key moved to the front ------------------------------------------------- *)
+
+Lemma filter_notin : forall {A} (l : list (N * A)) i, ~ In i (map fst l) ->
+  filter (fun jc => negb (N.eqb (fst jc) i)) l = l.
+Proof.
+  induction l as [|[j a] l IH]; intros i H; cbn; [reflexivity|].
+  destruct (N.eqb j i) eqn:E.
+  - apply N.eqb_eq in E. subst. exfalso. apply H. now left.
+  - cbn. f_equal. apply IH. intro. apply H. now right.
+Qed.
+
+Lemma vsum_move_front : forall {A} (g : A -> VEC) n (l : list (N * A)) i a,
+  NoDup (map fst l) -> lookup i l = Some a -> (forall e, In e l -> length (g (snd e)) = n) ->
+  vadd K (g a) (vsum K n (map (fun e => g (snd e)) (filter (fun jc => negb (N.eqb (fst jc) i)) l)))
+  = vsum K n (map (fun e => g (snd e)) l).
+Proof.
+  induction l as [|[j b] l IH]; intros i a ND L H; [discriminate|].
+  cbn [lookup] in L. cbn [map fst] in ND. inversion ND as [|? ? Hnotin ND']; subst.
+  cbn [filter fst]. destruct (N.eqb i j) eqn:E.
+  - apply N.eqb_eq in E. subst. inversion L; subst. rewrite N.eqb_refl. cbn [negb].
+    rewrite filter_notin by assumption. reflexivity.
+  - rewrite N.eqb_sym, E. cbn [negb map snd]. rewrite !vsum_cons.
+    rewrite vadd_assoc, (vadd_comm (g a) (g b)), <- vadd_assoc. f_equal.
+    apply IH; auto. intros e He. apply H. now right.
+Qed.
+
+(* ---- HJKY ------------------------------------------------------------------------------------ *)
+
+Lemma hjky_accumulate_ok : forall (zs : SH) i inbox s v s' v',
+  hjky_accumulate K zs i s v inbox = Ok (s', v') ->
+  s' = fold_left (vadd K) (map (fun m : zmsg => snd (snd m)) inbox) s /\
+  v' = fold_left (vadd K) (map (fun m : zmsg => fst (snd m)) inbox) v /\
+  Forall (fun m : zmsg => verify K zs i (snd (snd m)) (fst (snd m)) = true /\ hd0 K (fst (snd m)) = 0) inbox.
+Proof.
+  induction inbox as [|[j [vv sh]] rest IH]; intros s v s' v' H; cbn in H.
+  - inversion H; subst. repeat split; constructor.
+  - destruct (verify K zs i sh vv) eqn:E1; cbn in H; [|discriminate].
+    destruct (feqb K (hd0 K vv) 0) eqn:E2; cbn in H; [|discriminate].
+    destruct (Nat.eqb (length v) (length vv)) eqn:E3; cbn in H; [|discriminate].
+    destruct (IH _ _ _ _ H) as [A [B C]]. cbn [map fold_left fst snd]. repeat split; auto.
+    constructor; [|assumption]. cbn [fst snd]. split; [assumption|now apply feqb_eq].
+Qed.
+
+Lemma hjky_cols_spec : forall (zs : SH) rnds zc, hjky_cols K zs rnds = Some zc ->
+  map fst zc = map fst rnds /\ forall e, In e zc -> length (snd e) = sh_dim zs /\ hd0 K (snd e) = 0.
+Proof.
+  induction rnds as [|[j rnd] t IH]; intros zc H; cbn in H.
+  - inversion H; subst. split; [reflexivity|intros ? []].
+  - destruct (hjky_round1 K zs rnd) eqn:E1; [|discriminate]. destruct (hjky_cols K zs t) eqn:E2; [|discriminate].
+    inversion H; subst. destruct (IH _ eq_refl) as [M P]. split; [cbn; now rewrite M|].
+    intros e [He|He]; [|now apply P]. subst. cbn [snd]. unfold hjky_round1 in E1.
+    apply deal_col_spec in E1. tauto.
+Qed.
+
+(* an honest HJKY party ends with its share of the summed zero column Z and with Z itself *)
+Lemma hjky_party_honest : forall (zs : SH) (zc : zcols) i sh vv,
+  NoDup (map fst zc) -> (forall e, In e zc -> length (snd e) = sh_dim zs /\ hd0 K (snd e) = 0) ->
+  hjky_party K zs zc i = Ok (sh, vv) ->
+  vv = vsum K (sh_dim zs) (map snd zc) /\ sh = share_of K zs vv i.
+Proof.
+  intros zs zc i sh vv ND P H. unfold hjky_party in H. destruct (lookup i zc) as [c|] eqn:L; [|discriminate].
+  unfold hjky_round2, hjky_inbox in H. apply hjky_accumulate_ok in H. destruct H as [A [B _]].
+  rewrite map_map in A, B. cbn [fst snd] in A, B.
+  set (fl := filter (fun jc : N * vec => negb (N.eqb (fst jc) i)) zc) in *.
+  assert (Hfl : forall e, In e fl -> length (snd e) = sh_dim zs).
+  { intros e He. apply filter_In in He. now apply P. }
+  assert (Hc : length c = sh_dim zs) by (apply (P (i, c)); now apply lookup_In).
+  assert (MF : vadd K c (vsum K (sh_dim zs) (map snd fl)) = vsum K (sh_dim zs) (map snd zc)).
+  { exact (vsum_move_front (fun x => x) (sh_dim zs) zc i c ND L (fun e He => proj1 (P e He))). }
+  assert (Lfl : forall v, In v (map snd fl) -> length v = sh_dim zs).
+  { intros v Hv. apply in_map_iff in Hv. destruct Hv as [e [E He]]. subst. now apply Hfl. }
+  assert (V : vv = vsum K (sh_dim zs) (map snd zc)).
+  { rewrite B. rewrite (fold_left_vadd (sh_dim zs)); [exact MF|assumption|exact Lfl]. }
+  split; [assumption|].
+  rewrite A. rewrite (fold_left_vadd (length (rows zs i))).
+  - rewrite V, <- MF. rewrite share_of_vadd.
+    + f_equal. rewrite share_of_vsum by exact Lfl. now rewrite map_map.
+    + rewrite Hc. symmetry. now apply vsum_length.
+  - apply share_of_length.
+  - intros v Hv. apply in_map_iff in Hv. destruct Hv as [e [E He]]. subst. apply share_of_length.
+Qed.
+
+Lemma hd0_zero_sum : forall (zs : SH) (zc : zcols), (0 < sh_dim zs)%nat ->
+  (forall e, In e zc -> length (snd e) = sh_dim zs /\ hd0 K (snd e) = 0) ->
+  hd0 K (vsum K (sh_dim zs) (map snd zc)) = 0.
+Proof.
+  intros zs zc Hd P. rewrite hd0_vsum.
+  - apply fsum_zero. intros x Hx. apply in_map_iff in Hx. destruct Hx as [v [E Hv]]. subst.
+    apply in_map_iff in Hv. destruct Hv as [e [E He]]. subst. now apply P.
+  - assumption.
+  - intros v Hv. apply in_map_iff in Hv. destruct Hv as [e [E He]]. subst. now apply P.
+Qed.
+
+(* acceptance soundness of Round2 against ARBITRARY messages: whatever is accepted commits to
+   zero and verifies (a vector whose first entry is not the identity is rejected with blame) *)
+Lemma hjky_round2_accept_sound : forall (zs : SH) i own inbox s v,
+  wf_sharing_b zs = true -> In i (holders zs) -> length own = sh_dim zs -> hd0 K own = 0 ->
+  hjky_round2 K zs i own inbox = Ok (s, v) ->
+  Forall (fun m : zmsg => verify K zs i (snd (snd m)) (fst (snd m)) = true /\ hd0 K (fst (snd m)) = 0) inbox /\
+  hd0 K v = 0 /\ verify K zs i s v = true.
+Proof.
+  intros zs i own inbox s v W Hi Hl H0 H. unfold hjky_round2 in H.
+  pose proof (wf_dim_pos _ W) as Hd.
+  apply hjky_accumulate_ok in H. destruct H as [A [B C]]. split; [assumption|].
+  assert (L : forall m : zmsg, In m inbox -> length (fst (snd m)) = sh_dim zs /\ snd (snd m) = share_of K zs (fst (snd m)) i).
+  { intros m Hm. rewrite Forall_forall in C. destruct (C m Hm) as [Vm _]. apply verify_inv in Vm. tauto. }
+  assert (Vv : v = vadd K own (vsum K (sh_dim zs) (map (fun m : zmsg => fst (snd m)) inbox))).
+  { rewrite B. apply fold_left_vadd; [assumption|]. intros x Hx. apply in_map_iff in Hx. destruct Hx as [m [E Hm]]. subst. now apply L. }
+  assert (Ls : length (vsum K (sh_dim zs) (map (fun m : zmsg => fst (snd m)) inbox)) = sh_dim zs).
+  { apply vsum_length. intros x Hx. apply in_map_iff in Hx. destruct Hx as [m [E Hm]]. subst. now apply L. }
+  split.
+  - rewrite Vv. rewrite hd0_vadd by lia. rewrite H0. rewrite hd0_vsum; [|assumption|].
+    + rewrite fsum_zero; [ring|]. intros x Hx. apply in_map_iff in Hx. destruct Hx as [y [E Hy]]. subst.
+      apply in_map_iff in Hy. destruct Hy as [m [E Hm]]. subst. rewrite Forall_forall in C. now apply C.
+    + intros x Hx. apply in_map_iff in Hx. destruct Hx as [m [E Hm]]. subst. now apply L.
+  - assert (Ss : s = share_of K zs v i).
+    { rewrite A. rewrite (fold_left_vadd (length (rows zs i))).
+      - rewrite Vv. rewrite share_of_vadd by lia. f_equal. rewrite share_of_vsum.
+        + rewrite map_map. f_equal. apply map_ext_in. intros m Hm. now apply L.
+        + intros x Hx. apply in_map_iff in Hx. destruct Hx as [m [E Hm]]. subst. now apply L.
+      - apply share_of_length.
+      - intros x Hx. apply in_map_iff in Hx. destruct Hx as [m [E Hm]]. subst.
+        destruct (L m Hm) as [_ E]. rewrite E. apply share_of_length. }
+    rewrite Ss. apply verify_share_of; [assumption|]. rewrite Vv. apply vadd_length_eq; assumption.
+Qed.
+
+(* ---- one redistribution step ------------------------------------------------------------------ *)
+
+Section Step.
+Variable solve : SH -> list N -> option (@coefs F).
+
+Local Notation WORLD := (@world F).
+
+(* the invariant of a world for the secret s: the shares are the dealing of the current
+   sharing with the column w_vv (in the exponent: every share verifies against the
+   verification vector), whose first entry — the public key — is s *)
+Definition good (w : WORLD) (s : F) : Prop :=
+  wf_sharing_b (w_sh w) = true /\ length (w_vv w) = sh_dim (w_sh w) /\ hd0 K (w_vv w) = s /\ w_pk w = s /\
+  forall i, In i (holders (w_sh w)) -> share_in w i = share_of K (w_sh w) (w_vv w) i.
+
+Lemma coefs_checked_ok : forall sh S lam, coefs_checked K solve sh S = Some lam -> reconstructs_b K sh S lam = true.
+Proof.
+  intros sh S lam H. unfold coefs_checked in H. destruct (solve sh S) as [l|]; [|discriminate].
+  destruct (reconstructs_b K sh S l) eqn:E; [|discriminate]. now inversion H; subst.
+Qed.
+
+Lemma r3_accumulate_some : forall inbox s v r, r3_accumulate K (Some (s, v)) inbox = Ok r ->
+  r = Some (fold_left (vadd K) (map (@m_piece F) inbox) s, fold_left (vadd K) (map (fun m => b_nextvv (m_b m)) inbox) v).
+Proof.
+  induction inbox as [|m rest IH]; intros s v r H; cbn in H.
+  - now inversion H.
+  - destruct (Nat.eqb (length v) (length (b_nextvv (m_b m)))); [|discriminate].
+    cbn [map fold_left]. now apply IH.
+Qed.
+
+Lemma round3_ok_inv : forall own_t own anchor zs ns Q i inbox share vv,
+  round3 K solve own_t own anchor zs ns Q i inbox = Ok (share, vv) ->
+  r3_accumulate K own inbox = Ok (Some (share, vv)) /\ r3_oldpk K (hd0 K vv) inbox = true /\ verify K ns i share vv = true.
+Proof.
+  intros own_t own anchor zs ns Q i inbox share vv H. unfold round3 in H.
+  destruct (r3_accumulate K own inbox) as [[[s v]|]| |] eqn:EA; try discriminate.
+  destruct (r3_pieces K ns i inbox); try discriminate.
+  match type of H with (match ?t with _ => _ end) = _ => destruct t as [topt| |]; try discriminate end.
+  match type of H with (match ?t with _ => _ end) = _ => destruct t; try discriminate end.
+  destruct (r3_oldpk K (hd0 K v) inbox) eqn:EO; cbn in H; [|discriminate].
+  destruct (verify K ns i s v) eqn:EV; cbn in H; [|discriminate].
+  inversion H; subst. auto.
+Qed.
+
+(* acceptance soundness of Round3 against ARBITRARY messages: an accepted shard verifies and its
+   public key is the first entry of every broadcast previous vector *)
+Lemma r3_oldpk_spec : forall pk inbox, r3_oldpk K pk inbox = true -> forall m, In m inbox -> hd0 K (b_prevvv (m_b m)) = pk.
+Proof.
+  induction inbox as [|m rest IH]; intros H x Hx; [contradiction|].
+  cbn in H. apply andb_true_iff in H. destruct H as [H1 H2]. destruct Hx as [E|Hx]; [subst; now apply feqb_eq|now apply IH].
+Qed.
+
+Lemma round3_accept_sound : forall own_t own anchor zs ns Q i inbox share vv,
+  round3 K solve own_t own anchor zs ns Q i inbox = Ok (share, vv) ->
+  verify K ns i share vv = true /\ forall m, In m inbox -> hd0 K (b_prevvv (m_b m)) = hd0 K vv.
+Proof.
+  intros. apply round3_ok_inv in H. destruct H as [_ [H1 H2]]. split; [assumption|]. now apply r3_oldpk_spec.
+Qed.
+
+Lemma round2_spec : forall ps zs ns Q j sj zj rnd a c lam lamz,
+  coefs_checked K solve ps Q = Some lam -> coefs_checked K solve zs Q = Some lamz ->
+  round2 K solve ps zs ns Q j sj zj rnd = Some (a, c) ->
+  a = additive K lam j sj + additive K lamz j zj /\ length c = sh_dim ns /\ hd0 K c = a.
+Proof.
+  intros ps zs ns Q j sj zj rnd a c lam lamz E1 E2 H. unfold round2 in H. rewrite E1, E2 in H.
+  destruct (Nat.eqb (length sj) (length (coef_of lam j)) && Nat.eqb (length zj) (length (coef_of lamz j))); [|discriminate].
+  destruct (deal_col (sh_dim ns) (additive K lam j sj + additive K lamz j zj) rnd) as [c'|] eqn:ED; [|discriminate].
+  inversion H; subst. apply deal_col_spec in ED. tauto.
+Qed.
+
+Lemma lookup_map_snd : forall {A B} (g : A -> B) (l : list (N * A)) i,
+  lookup i (map (fun o => (fst o, g (snd o))) l) = option_map g (lookup i l).
+Proof.
+  induction l as [|[j a] l IH]; intros i; cbn; [reflexivity|]. destruct (N.eqb i j); [reflexivity|apply IH].
+Qed.
+
+(* what every next holder computes in an honest step, from what it accumulates *)
+Lemma r3_honest_values : forall (w : WORLD) (ns : SH) zres (cols : list (N * (F * VEC))) Q i own share vv,
+  map fst cols = Q -> NoDup Q -> (2 <= length Q)%nat ->
+  (forall e, In e cols -> length (snd (snd e)) = sh_dim ns) ->
+  own = match lookup i cols with
+        | Some ac => if mem i Q then Some (share_of K ns (snd ac) i, snd ac) else None
+        | None => None end ->
+  r3_accumulate K own (r3_inbox K w ns zres cols i) = Ok (Some (share, vv)) ->
+  vv = vsum K (sh_dim ns) (map (fun e => snd (snd e)) cols) /\ share = share_of K ns vv i.
+Proof.
+  intros w ns zres cols Q i own share vv MQ ND LQ LC Ho H.
+  unfold r3_inbox in H.
+  set (fl := filter (fun jc : N * (F * VEC) => negb (N.eqb (fst jc) i)) cols) in *.
+  set (mk := fun jc : N * (F * VEC) => mk_r2msg (fst jc)
+       (mk_r2bcast (w_sh w) (w_vv w) (match lookup (fst jc) zres with Some z => snd z | None => [] end) (snd (snd jc)))
+       (share_of K ns (snd (snd jc)) i)) in *.
+  assert (Hfl : forall e, In e fl -> length (snd (snd e)) = sh_dim ns).
+  { intros e He. apply filter_In in He. now apply LC. }
+  assert (Lfl : forall v, In v (map (fun e : N * (F * VEC) => snd (snd e)) fl) -> length v = sh_dim ns).
+  { intros v Hv. apply in_map_iff in Hv. destruct Hv as [e [E He]]. subst. now apply Hfl. }
+  assert (P1 : forall l, map (@m_piece F) (map mk l) = map (fun c => share_of K ns c i) (map (fun e : N * (F * VEC) => snd (snd e)) l)).
+  { intro l. rewrite !map_map. reflexivity. }
+  assert (P2 : forall l, map (fun m => b_nextvv (m_b m)) (map mk l) = map (fun e : N * (F * VEC) => snd (snd e)) l).
+  { intro l. rewrite map_map. reflexivity. }
+  assert (SS : forall v, In v (map (fun c => share_of K ns c i) (map (fun e : N * (F * VEC) => snd (snd e)) fl)) -> length v = length (rows ns i)).
+  { intros v Hv. apply in_map_iff in Hv. destruct Hv as [c [E _]]. subst. apply share_of_length. }
+  rewrite <- MQ in ND.
+  destruct (lookup i cols) as [ac|] eqn:L.
+  - (* i is a previous holder *)
+    assert (Hi : mem i Q = true).
+    { apply mem_In. rewrite <- MQ. apply in_map_iff. exists (i, ac). split; [reflexivity|now apply lookup_In]. }
+    rewrite Hi in Ho. subst own. apply r3_accumulate_some in H. inversion H as [[Hs Hv]]. clear H.
+    rewrite P1, P2.
+    assert (Lac : length (snd ac) = sh_dim ns) by (apply (LC (i, ac)); now apply lookup_In).
+    assert (MF : vadd K (snd ac) (vsum K (sh_dim ns) (map (fun e : N * (F * VEC) => snd (snd e)) fl))
+                 = vsum K (sh_dim ns) (map (fun e : N * (F * VEC) => snd (snd e)) cols)).
+    { exact (vsum_move_front (fun x : F * VEC => snd x) (sh_dim ns) cols i ac ND L LC). }
+    rewrite (fold_left_vadd (sh_dim ns)) by assumption. rewrite MF. split; [reflexivity|].
+    rewrite (fold_left_vadd (length (rows ns i))); [|apply share_of_length|assumption].
+    rewrite <- MF. rewrite share_of_vadd.
+    + f_equal. now rewrite share_of_vsum.
+    + rewrite Lac. symmetry. now apply vsum_length.
+  - (* i is only a next holder: everything comes from the inbox *)
+    subst own.
+    assert (Hn : ~ In i (map fst cols)).
+    { intro Hin. apply lookup_map_fst in Hin. destruct Hin as [x Hx]. congruence. }
+    assert (Efl : fl = cols) by (unfold fl; now apply filter_notin).
+    rewrite Efl in *.
+    destruct cols as [|e0 rest]; [cbn in MQ; subst Q; cbn in LQ; lia|].
+    cbn [map r3_accumulate] in H. apply r3_accumulate_some in H. inversion H as [[Hs Hv]]. clear H.
+    rewrite P1, P2.
+    assert (Le0 : length (snd (snd e0)) = sh_dim ns) by (apply LC; now left).
+    assert (Lr : forall v, In v (map (fun e : N * (F * VEC) => snd (snd e)) rest) -> length v = sh_dim ns).
+    { intros v Hv'. apply Lfl. now right. }
+    rewrite (fold_left_vadd (sh_dim ns)); [|exact Le0|exact Lr].
+    cbn [map]. rewrite vsum_cons. cbn [m_b b_nextvv mk]. split; [reflexivity|].
+    rewrite (fold_left_vadd (length (rows ns i))).
+    + cbn [m_piece mk]. rewrite share_of_vadd.
+      * f_equal. now rewrite share_of_vsum.
+      * rewrite Le0. symmetry. now apply vsum_length.
+    + cbn [m_piece mk]. apply share_of_length.
+    + intros v Hv'. apply SS. now right.
+Qed.
+
+Lemma good_recon : forall (w : WORLD) s S lam, good w s -> reconstructs_b K (w_sh w) S lam = true ->
+  recon K S lam (share_in w) = s.
+Proof.
+  intros w s S lam [W [L [H0 [_ Hs]]]] R.
+  rewrite (recon_ext S lam (share_in w) (share_of K (w_sh w) (w_vv w))).
+  - rewrite recon_correct by assumption. assumption.
+  - intros i Hi. apply Hs. now apply (reconstructs_holders _ _ _ _ R Hi).
+Qed.
+
+Lemma good_verify : forall (w : WORLD) s i, good w s -> In i (holders (w_sh w)) ->
+  verify K (w_sh w) i (share_in w i) (w_vv w) = true.
+Proof.
+  intros w s i [W [L [H0 [_ Hs]]]] Hi. rewrite Hs by assumption. now apply verify_share_of.
+Qed.
+
+Lemma genesis_good : forall sh secret rnd (w : WORLD), genesis K sh secret rnd = Some w -> good w secret.
+Proof.
+  intros sh secret rnd w H. unfold genesis in H. destruct (wf_sharing_b sh) eqn:W; [|discriminate].
+  destruct (deal_col (sh_dim sh) secret rnd) as [c|] eqn:D; [|discriminate].
+  inversion H; subst w. clear H. apply deal_col_spec in D. destruct D as [D1 [D2 _]].
+  unfold good. cbn [w_sh w_vv w_pk]. repeat split; auto.
+  intros i Hi. unfold share_in. cbn [w_shares].
+  assert (G : forall l, In i l -> lookup i (map (fun i0 => (i0, share_of K sh c i0)) l) = Some (share_of K sh c i)).
+  { induction l as [|x l IH]; intros Hl; [contradiction|]. cbn. destruct (N.eqb i x) eqn:E.
+    - apply N.eqb_eq in E. now subst.
+    - destruct Hl as [Hl|Hl]; [subst; rewrite N.eqb_refl in E; discriminate|now apply IH]. }
+  now rewrite G.
+Qed.
+
+(* the step theorem: whenever an honest step is performed, the new world is good for the same secret *)
+Theorem redist_run_good : forall (w : WORLD) ns a w' s,
+  good w s -> redist_run K solve w ns a = Some w' -> good w' s.
+Proof.
+  intros w ns a w' s G H. unfold redist_run in H.
+  match type of H with (if negb ?c then _ else _) = _ => destruct c eqn:EC; cbn [negb] in H; [|discriminate] end.
+  do 8 (apply andb_true_iff in EC; destruct EC as [EC ?]).
+  rename EC into Wns.
+  match goal with X : wf_sharing_b (sa_zs a) = true |- _ => rename X into Wzs end.
+  match goal with X : nodup_b (sa_Q a) = true |- _ => apply nodup_b_NoDup in X; rename X into NDQ end.
+  match goal with X : Nat.leb 2 (length (sa_Q a)) = true |- _ => apply Nat.leb_le in X; rename X into LQ end.
+  match goal with X : forallb _ (sa_Q a) = true |- _ => rename X into QH end.
+  match goal with X : list_N_eqb (map fst (sa_rnd1 a)) (sa_Q a) = true |- _ => apply list_N_eqb_eq in X; rename X into R1 end.
+  match goal with X : list_N_eqb (map fst (sa_rnd2 a)) (sa_Q a) = true |- _ => apply list_N_eqb_eq in X; rename X into R2 end.
+  set (Q := sa_Q a) in *. set (zs := sa_zs a) in *.
+  destruct (coefs_checked K solve (w_sh w) Q) as [lam|] eqn:EL; [|discriminate].
+  destruct (hjky_cols K zs (sa_rnd1 a)) as [zc|] eqn:EZ; [|discriminate].
+  destruct (all_ok (hjky_party K zs zc) Q) as [zres|] eqn:EZR; [|discriminate].
+  match type of H with (match all_some ?f ?l with _ => _ end) = _ => destruct (all_some f l) as [cols|] eqn:ECOLS; [|discriminate] end.
+  match type of H with (match all_ok ?f ?l with _ => _ end) = _ => destruct (all_ok f l) as [outs|] eqn:EOUT; [|discriminate] end.
+  destruct outs as [|[i0 [sh0 vv0]] outs']; [discriminate|]. inversion H; subst w'. clear H.
+  (* the zero sharing *)
+  destruct (hjky_cols_spec _ _ _ EZ) as [MZ PZ]. rewrite R1 in MZ.
+  assert (NDZ : NoDup (map fst zc)) by now rewrite MZ.
+  set (Z := vsum K (sh_dim zs) (map snd zc)).
+  assert (HZ : forall j, In j Q -> (match lookup j zres with Some z => fst z | None => [] end) = share_of K zs Z j).
+  { intros j Hj. destruct (lookup_all_ok _ _ _ _ EZR Hj) as [[zsh zvv] [Lz Pz]]. rewrite Lz. cbn [fst].
+    destruct (hjky_party_honest zs zc j zsh zvv NDZ PZ Pz) as [A B]. now rewrite B, A. }
+  (* the columns dealt under the next sharing *)
+  destruct (all_some_spec _ _ _ ECOLS) as [MC PC].
+  assert (Hne : exists j0, In j0 Q).
+  { destruct Q as [|j0 ?]; [cbn in LQ; lia|]. exists j0. now left. }
+  destruct Hne as [j0 Hj0].
+  destruct (coefs_checked K solve zs Q) as [lamz|] eqn:ELZ.
+  2:{ destruct (lookup_all_some _ _ _ _ ECOLS Hj0) as [b [_ Pb]]. unfold round2 in Pb. rewrite EL, ELZ in Pb. discriminate. }
+  assert (RC : forall e, In e cols -> length (snd (snd e)) = sh_dim ns /\
+            hd0 K (snd (snd e)) = additive K lam (fst e) (share_in w (fst e)) +
+                                  additive K lamz (fst e) (match lookup (fst e) zres with Some z => fst z | None => [] end)).
+  { intros [j [aj cj]] He. specialize (PC _ _ He). cbn [fst snd].
+    destruct (round2_spec _ _ _ _ _ _ _ _ _ _ _ _ EL ELZ PC) as [A [B C]]. split; [assumption|]. now rewrite C, A. }
+  set (C' := vsum K (sh_dim ns) (map (fun e : N * (F * VEC) => snd (snd e)) cols)).
+  (* what every next holder ends with *)
+  assert (HO : forall i sh vv, In (i, (sh, vv)) ((i0, (sh0, vv0)) :: outs') -> vv = C' /\ sh = share_of K ns C' i).
+  { intros i sh vv Hin. destruct (all_ok_spec _ _ _ EOUT) as [_ PO]. specialize (PO _ _ Hin). cbv zeta in PO.
+    apply round3_ok_inv in PO. destruct PO as [PA _].
+    destruct (r3_honest_values w ns zres cols Q i _ sh vv MC NDQ LQ (fun e He => proj1 (RC e He)) eq_refl PA) as [A B].
+    split; [exact A|]. now rewrite B, A. }
+  destruct (HO i0 sh0 vv0 (or_introl eq_refl)) as [EV0 _]. subst vv0.
+  destruct G as [GW [GL [G0 [Gpk Gs]]]].
+  assert (LC' : length C' = sh_dim ns).
+  { apply vsum_length. intros v Hv. apply in_map_iff in Hv. destruct Hv as [e [E He]]. subst. now apply RC. }
+  assert (S0 : hd0 K C' = s).
+  { unfold C'. rewrite hd0_vsum; [|now apply wf_dim_pos|].
+    2:{ intros v Hv. apply in_map_iff in Hv. destruct Hv as [e [E He]]. subst. now apply RC. }
+    rewrite map_map.
+    rewrite (fsum_map_ext _ (fun e : N * (F * VEC) => additive K lam (fst e) (share_in w (fst e)) +
+                additive K lamz (fst e) (match lookup (fst e) zres with Some z => fst z | None => [] end))).
+    2:{ intros e He. now apply RC. }
+    rewrite fsum_map_add.
+    rewrite <- (map_map fst (fun j => additive K lam j (share_in w j))).
+    rewrite <- (map_map fst (fun j => additive K lamz j (match lookup j zres with Some z => fst z | None => [] end))).
+    rewrite MC.
+    change (fsum K (map (fun j => additive K lam j (share_in w j)) Q)) with (recon K Q lam (share_in w)).
+    change (fsum K (map (fun j => additive K lamz j (match lookup j zres with Some z => fst z | None => [] end)) Q))
+      with (recon K Q lamz (fun j => match lookup j zres with Some z => fst z | None => [] end)).
+    rewrite (good_recon w s Q lam); [|unfold good; repeat split; assumption|now apply coefs_checked_ok].
+    rewrite (recon_ext Q lamz _ (share_of K zs Z)) by exact HZ.
+    rewrite recon_correct; [|assumption|now apply coefs_checked_ok].
+    unfold Z. rewrite hd0_zero_sum; [ring|now apply wf_dim_pos|assumption]. }
+  unfold good. cbn [w_sh w_vv w_pk]. repeat split; auto.
+  intros i Hi. unfold share_in. cbn [w_shares].
+  change ((i0, sh0) :: map (fun o : N * (list F * VEC) => (fst o, fst (snd o))) outs')
+    with (map (fun o : N * (list F * VEC) => (fst o, fst (snd o))) ((i0, (sh0, C')) :: outs')).
+  rewrite (lookup_map_snd (@fst (list F) VEC)).
+  destruct (lookup_all_ok _ _ _ _ EOUT Hi) as [[sh vv] [Lo _]]. rewrite Lo. cbn [option_map fst].
+  apply lookup_In in Lo. now destruct (HO i sh vv Lo).
+Qed.
+
+Theorem epoch_step_good : forall (w : WORLD) o s, good w s -> good (epoch_step K solve w o) s.
+Proof.
+  intros w o s G. destruct o as [a|i a|ns a|S m]; cbn [epoch_step].
+  - destruct (redist_run K solve w (w_sh w) a) eqn:E; [now apply (redist_run_good w (w_sh w) a)|assumption].
+  - destruct (negb (mem i (sa_Q a)) && mem i (holders (w_sh w))); [|assumption].
+    destruct (redist_run K solve w (w_sh w) a) eqn:E; [now apply (redist_run_good w (w_sh w) a)|assumption].
+  - destruct (redist_run K solve w ns a) eqn:E; [now apply (redist_run_good w ns a)|assumption].
+  - assumption.
+Qed.
+
+Theorem history_good : forall ops (w : WORLD) s, good w s -> good (run_history K solve w ops) s.
+Proof.
+  induction ops as [|o ops IH]; intros w s G; [assumption|].
+  unfold run_history. cbn [fold_left]. apply IH. now apply epoch_step_good.
+Qed.
+
+(* after ANY finite history: same public key, every share verifies, every set that
+   reconstructs in the current sharing reconstructs the original secret *)
+Theorem history_invariant : forall sh secret rnd (w0 : WORLD) ops,
+  genesis K sh secret rnd = Some w0 ->
+  let w := run_history K solve w0 ops in
+  w_pk w = w_pk w0 /\ hd0 K (w_vv w) = secret /\
+  (forall i, In i (holders (w_sh w)) -> verify K (w_sh w) i (share_in w i) (w_vv w) = true) /\
+  (forall S lam, reconstructs_b K (w_sh w) S lam = true -> recon K S lam (share_in w) = secret) /\
+  (forall S v, reconstruct K solve w S = Some v -> v = secret).
+Proof.
+  intros sh secret rnd w0 ops Hg w.
+  pose proof (genesis_good _ _ _ _ Hg) as G0.
+  pose proof (history_good ops w0 secret G0) as G. fold w in G.
+  split; [|split; [|split; [|split]]].
+  - destruct G as [_ [_ [_ [P _]]]]. destruct G0 as [_ [_ [_ [P0 _]]]]. now rewrite P, P0.
+  - now destruct G as [_ [_ [P _]]].
+  - intros i Hi. now apply (good_verify w secret).
+  - intros S lam R. now apply (good_recon w secret).
+  - intros S v R. unfold reconstruct in R. destruct (coefs_checked K solve (w_sh w) S) as [lam|] eqn:E; [|discriminate].
+    inversion R; subst. apply (good_recon w secret); [assumption|now apply coefs_checked_ok].
+Qed.
+
+(* ---- the step theorem in the form asked for --------------------------------------------------- *)
+
+(* new summed column has first entry s; the new vector's first entry (the new public key) is
+   the old public key; every new share verifies against the new vector (and is the share of
+   the new column under the next sharing); every reconstructing set of the NEXT sharing
+   recovers s *)
+Theorem redist_step_preserves : forall (w : WORLD) ns a w' s,
+  good w s -> redist_run K solve w ns a = Some w' ->
+  w_sh w' = ns /\ hd0 K (w_vv w') = s /\ w_pk w' = w_pk w /\
+  (forall i, In i (holders ns) -> share_in w' i = share_of K ns (w_vv w') i /\ verify K ns i (share_in w' i) (w_vv w') = true) /\
+  (forall S lam, reconstructs_b K ns S lam = true -> recon K S lam (share_in w') = s).
+Proof.
+  intros w ns a w' s G H. pose proof (redist_run_good w ns a w' s G H) as G'.
+  assert (E : w_sh w' = ns).
+  { unfold redist_run in H.
+    repeat match type of H with
+           | (if ?c then _ else _) = _ => destruct c; [discriminate|]
+           | (match ?t with _ => _ end) = _ => destruct t; try discriminate
+           end.
+    inversion H. reflexivity. }
+  split; [assumption|]. destruct G' as [W' [L' [H0' [P' S']]]]. destruct G as [_ [_ [_ [P _]]]].
+  split; [assumption|]. split; [congruence|]. split.
+  - intros i Hi. rewrite <- E in *. split; [now apply S'|]. rewrite S' by assumption. now apply verify_share_of.
+  - intros S lam R. rewrite <- E in R. apply (good_recon w' s); [|assumption]. unfold good. repeat split; assumption.
+Qed.
+
+(* ---- mixed epochs ------------------------------------------------------------------------------- *)
+
+Lemma vsum_app : forall n (l1 l2 : list VEC), (forall v, In v l1 -> length v = n) -> (forall v, In v l2 -> length v = n) ->
+  vsum K n (l1 ++ l2) = vadd K (vsum K n l1) (vsum K n l2).
+Proof.
+  induction l1 as [|v l1 IH]; intros l2 H1 H2.
+  - cbn [app]. change (vsum K n []) with (vzero K n). rewrite vadd_vzero_l; [reflexivity|now apply vsum_length].
+  - change ((v :: l1) ++ l2) with (v :: (l1 ++ l2)). rewrite !vsum_cons, IH; [apply vadd_assoc| |assumption].
+    intros; apply H1; now right.
+Qed.
+
+Lemma comb_app : forall (sh : SH) A B lam, wf_sharing_b sh = true ->
+  comb K sh (A ++ B) lam = vadd K (comb K sh A lam) (comb K sh B lam).
+Proof.
+  intros sh A B lam W. unfold comb. rewrite map_app. apply vsum_app.
+  - intros v Hv. apply in_map_iff in Hv. destruct Hv as [i [E _]]. subst. apply lincomb_length. now apply wf_rows.
+  - intros v Hv. apply in_map_iff in Hv. destruct Hv as [i [E _]]. subst. apply lincomb_length. now apply wf_rows.
+Qed.
+
+Lemma comb_length : forall (sh : SH) S lam, wf_sharing_b sh = true -> length (comb K sh S lam) = sh_dim sh.
+Proof.
+  intros sh S lam W. unfold comb. apply vsum_length.
+  intros v Hv. apply in_map_iff in Hv. destruct Hv as [i [E _]]. subst. apply lincomb_length. now apply wf_rows.
+Qed.
+
+(* A set A++B that reconstructs through lam in the common sharing, holding A's shares of epoch
+   wa and B's shares of epoch wb, obtains  s + <mu_B, c_b> - <mu_B, c_a>  where
+   mu_B = Σ_{i∈B} lam_i·rows_i and c_a, c_b are the two epochs' columns *)
+Theorem mixed_epochs_value : forall (wa wb : WORLD) s A B lam,
+  good wa s -> good wb s -> w_sh wb = w_sh wa ->
+  reconstructs_b K (w_sh wa) (A ++ B) lam = true ->
+  mixed_recon K wa wb A B lam =
+    s + (dot K (comb K (w_sh wa) B lam) (w_vv wb) - dot K (comb K (w_sh wa) B lam) (w_vv wa)).
+Proof.
+  intros wa wb s A B lam Ga Gb E R. unfold mixed_recon.
+  destruct Ga as [Wa [La [Ha [_ Sa]]]]. destruct Gb as [Wb [Lb [Hb [_ Sb]]]]. rewrite E in *.
+  assert (HA : forall i, In i A -> In i (holders (w_sh wa))).
+  { intros i Hi. apply (reconstructs_holders _ _ _ i R). apply in_or_app. now left. }
+  assert (HB : forall i, In i B -> In i (holders (w_sh wa))).
+  { intros i Hi. apply (reconstructs_holders _ _ _ i R). apply in_or_app. now right. }
+  rewrite (recon_ext A lam (share_in wa) (share_of K (w_sh wa) (w_vv wa))) by (intros; apply Sa; auto).
+  rewrite (recon_ext B lam (share_in wb) (share_of K (w_sh wa) (w_vv wb))) by (intros; apply Sb; auto).
+  rewrite !recon_share_of by assumption.
+  pose proof (reconstructs_comb _ _ _ R) as C. rewrite comb_app in C by assumption.
+  assert (D : dot K (comb K (w_sh wa) A lam) (w_vv wa) + dot K (comb K (w_sh wa) B lam) (w_vv wa) = s).
+  { rewrite <- dot_vadd_l by (rewrite !comb_length; auto). rewrite C. rewrite dot_e0 by now apply wf_dim_pos. assumption. }
+  rewrite <- D. ring.
+Qed.
+
+Lemma dot_hd_tl : forall a c : VEC, (0 < length a)%nat -> (0 < length c)%nat ->
+  dot K a c = hd0 K a * hd0 K c + dot K (tl a) (tl c).
+Proof. intros a c Ha Hc. destruct a; destruct c; cbn in *; try lia. reflexivity. Qed.
+
+(* ... so it obtains s exactly on the linear coincidence  <tl mu_B, tl c_b> = <tl mu_B, tl c_a>
+   between the two epochs' FRESH coefficients (the entries after the secret) *)
+Theorem mixed_epochs : forall (wa wb : WORLD) s A B lam,
+  good wa s -> good wb s -> w_sh wb = w_sh wa ->
+  reconstructs_b K (w_sh wa) (A ++ B) lam = true ->
+  (mixed_recon K wa wb A B lam = s <->
+   dot K (tl (comb K (w_sh wa) B lam)) (tl (w_vv wb)) = dot K (tl (comb K (w_sh wa) B lam)) (tl (w_vv wa))).
+Proof.
+  intros wa wb s A B lam Ga Gb E R. rewrite (mixed_epochs_value wa wb s A B lam Ga Gb E R).
+  destruct Ga as [Wa [La [Ha _]]]. destruct Gb as [Wb [Lb [Hb _]]]. rewrite E in *.
+  pose proof (wf_dim_pos _ Wa) as Hd.
+  set (mu := comb K (w_sh wa) B lam).
+  assert (Lm : length mu = sh_dim (w_sh wa)) by now apply comb_length.
+  rewrite (dot_hd_tl mu (w_vv wb)) by lia. rewrite (dot_hd_tl mu (w_vv wa)) by lia. rewrite Ha, Hb.
+  split; intro H.
+  - assert (X : forall x y h : F, s + (h * s + x - (h * s + y)) = s -> x = y).
+    { intros x y h Hx. transitivity ((s + (h * s + x - (h * s + y))) - s + y); [ring|]. rewrite Hx. ring. }
+    exact (X _ _ _ H).
+  - rewrite H. ring.
+Qed.
+
+(* the coincidence is a genuine condition unless nothing is combined: if the coefficient
+   vector tl mu_B vanishes, both parts of the set are multiples of the target vector *)
+Lemma vzero_S : forall n, vzero K (S n) = 0 :: vzero K n.
+Proof. reflexivity. Qed.
+
+Lemma vadd_zero_inv : forall (a : VEC) n t, length a = n -> vadd K a (vscale K t (vzero K n)) = vzero K n -> a = vzero K n.
+Proof.
+  induction a as [|x a IH]; intros n t L H; destruct n; cbn in L; try discriminate; [reflexivity|].
+  rewrite vzero_S in *. cbn [vscale map vadd] in H. injection H as H1 H2.
+  f_equal.
+  - transitivity (x + t * 0 - t * 0); [ring|]. rewrite H1. ring.
+  - apply (IH n t); [lia|]. exact H2.
+Qed.
+
+Theorem mixed_degenerate : forall (sh : SH) A B lam,
+  wf_sharing_b sh = true -> reconstructs_b K sh (A ++ B) lam = true ->
+  tl (comb K sh B lam) = vzero K (sh_dim sh - 1) ->
+  exists t, comb K sh B lam = vscale K t (e0 K (sh_dim sh)) /\ comb K sh A lam = vscale K (1 - t) (e0 K (sh_dim sh)).
+Proof.
+  intros sh A B lam W R T. pose proof (wf_dim_pos _ W) as Hd.
+  pose proof (reconstructs_comb _ _ _ R) as C. rewrite comb_app in C by assumption.
+  pose proof (comb_length sh B lam W) as LB. pose proof (comb_length sh A lam W) as LA.
+  destruct (sh_dim sh) as [|n] eqn:ED; [lia|]. replace (S n - 1)%nat with n in T by lia.
+  destruct (comb K sh B lam) as [|t mb] eqn:EB; [cbn in LB; lia|]. cbn [tl] in T. subst mb.
+  exists t. assert (ZZ : forall u, vscale K u (vzero K n) = vzero K n).
+  { intro u. unfold vscale, vzero. induction n as [|k IHk] in |- *; cbn; [reflexivity|]. f_equal; [ring|]. apply IHk. }
+  split.
+  - cbn [e0 vscale map]. fold (vscale K t (vzero K n)). rewrite ZZ. f_equal. ring.
+  - destruct (comb K sh A lam) as [|x ma] eqn:EA; [cbn in LA; lia|]. cbn [e0 vadd] in C. injection C as C1 C2.
+    cbn [e0 vscale map]. fold (vscale K (1 - t) (vzero K n)). rewrite ZZ. f_equal.
+    + transitivity (x + t - t); [ring|]. rewrite C1. ring.
+    + apply (vadd_zero_inv ma n 1); [cbn in LA; lia|]. rewrite ZZ. exact C2.
+Qed.
+
+(* a non-zero coefficient pins the corresponding fresh entry to exactly one value *)
+Theorem coincidence_unique : forall m r t : F, m <> 0 -> forall x, m * x + r = t <-> x = (t - r) * finv K m.
+Proof.
+  intros m r t Hm x. split; intro H.
+  - rewrite <- H. field. assumption.
+  - rewrite H. field. assumption.
+Qed.
+
+End Step.
+
+(* ---- zero sharings contribute nothing to the secret ------------------------------------------- *)
+
+Theorem zero_sum : forall (zs : SH) rnds (zc : zcols),
+  wf_sharing_b zs = true -> NoDup (map fst rnds) -> hjky_cols K zs rnds = Some zc ->
+  let Z := vsum K (sh_dim zs) (map snd zc) in
+  hd0 K Z = 0 /\ length Z = sh_dim zs /\
+  (forall i sh vv, hjky_party K zs zc i = Ok (sh, vv) -> vv = Z /\ sh = share_of K zs Z i) /\
+  (forall S lam, reconstructs_b K zs S lam = true -> recon K S lam (share_of K zs Z) = 0) /\
+  (forall c i, length c = sh_dim zs -> share_of K zs (vadd K c Z) i = vadd K (share_of K zs c i) (share_of K zs Z i)) /\
+  (forall c S lam, length c = sh_dim zs -> reconstructs_b K zs S lam = true -> recon K S lam (share_of K zs (vadd K c Z)) = hd0 K c).
+Proof.
+  intros zs rnds zc W ND H Z. destruct (hjky_cols_spec _ _ _ H) as [M P].
+  assert (NDZ : NoDup (map fst zc)) by now rewrite M.
+  pose proof (wf_dim_pos _ W) as Hd.
+  assert (H0 : hd0 K Z = 0) by (apply hd0_zero_sum; assumption).
+  assert (LZ : length Z = sh_dim zs).
+  { apply vsum_length. intros v Hv. apply in_map_iff in Hv. destruct Hv as [e [E He]]. subst. now apply P. }
+  split; [assumption|]. split; [assumption|]. split; [|split; [|split]].
+  - intros i sh vv Hp. destruct (hjky_party_honest zs zc i sh vv NDZ P Hp) as [A B]. split; [exact A|]. rewrite B. now rewrite A.
+  - intros S lam R. rewrite recon_correct by assumption. assumption.
+  - intros c i Lc. apply share_of_vadd. lia.
+  - intros c S lam Lc R. rewrite recon_correct by assumption. rewrite hd0_vadd by lia. rewrite H0. ring.
+Qed.
+
+
 End RedistProofs.
+
+(* ---- a concrete instance over Z_7 (for the non-vacuity Examples of props/C06.v) -------------- *)
+
+Require Import V.base.ZpField.
+
+Module Ex7.
+  Definition H7 : (0 < 7)%Z := prime_gt0 7 prime_7.
+  Definition K7 := ZpS 7 H7.
+  Definition z (x : Z) : ZpT 7 := zp_of 7 H7 x.
+  (* 2-of-3 Shamir on holders 1,2,3 and on holders 2,3,4; unanimity of {1,2} and of {2,3} as the
+     library builds it (shifted identity, last row (1,-1)) *)
+  Definition sh123 : sharing := mk_sharing 2 [(1%N, [[z 1; z 1]]); (2%N, [[z 1; z 2]]); (3%N, [[z 1; z 3]])].
+  Definition sh234 : sharing := mk_sharing 2 [(2%N, [[z 1; z 2]]); (3%N, [[z 1; z 3]]); (4%N, [[z 1; z 4]])].
+  Definition zs12 : sharing := mk_sharing 2 [(1%N, [[z 0; z 1]]); (2%N, [[z 1; z 6]])].
+  Definition zs23 : sharing := mk_sharing 2 [(2%N, [[z 0; z 1]]); (3%N, [[z 1; z 6]])].
+  Definition lam12 : coefs := [(1%N, [z 2]); (2%N, [z 6])].
+  Definition lam23 : coefs := [(2%N, [z 3]); (3%N, [z 5])].
+  Definition solve7 (sh : sharing) (S : list N) : option coefs :=
+    if sharing_eqb K7 sh zs12 then Some [(1%N, [z 1]); (2%N, [z 1])]
+    else if sharing_eqb K7 sh zs23 then Some [(2%N, [z 1]); (3%N, [z 1])]
+    else if list_N_eqb S [1%N; 2%N] then Some lam12
+    else if list_N_eqb S [2%N; 3%N] then Some lam23
+    else None.
+  Definition a1 := mk_step_args [1%N; 2%N] 1%N zs12 [(1%N, [z 0; z 3]); (2%N, [z 0; z 5])] [(1%N, [z 0; z 2]); (2%N, [z 0; z 6])].
+  Definition a2 := mk_step_args [2%N; 3%N] 0%N zs23 [(2%N, [z 4; z 1]); (3%N, [z 2; z 2])] [(2%N, [z 1; z 3]); (3%N, [z 0; z 1])].
+  Definition a3 := mk_step_args [2%N; 3%N] 2%N zs23 [(2%N, [z 6; z 5]); (3%N, [z 1; z 4])] [(2%N, [z 3; z 3]); (3%N, [z 5; z 0])].
+  (* refresh by {1,2} with anchor; redistribute to holders 2,3,4 (1 leaves, 4 joins) without anchor;
+     recover holder 4's share through {2,3} with anchor; an observation *)
+  Definition ops : list op := [Refresh a1; Redistribute sh234 a2; Recover 4%N a3; Sign [3%N; 4%N] 0%N].
+  Definition w0 := genesis K7 sh123 (z 3) [z 5; z 4].
+
+  (* every step of the history is actually performed by the model (nothing is refused) *)
+  Lemma ex_history_performed :
+    match w0 with
+    | Some w => forallb fst (trace_history K7 solve7 w ops) = true /\ length (trace_history K7 solve7 w ops) = 4%nat
+    | None => False
+    end.
+  Proof. vm_compute. split; reflexivity. Qed.
+
+  (* shares of {1} from the first epoch with shares of {2} from the refreshed epoch: the set
+     reconstructs through lam12, and does NOT obtain the secret *)
+  Lemma ex_mixed :
+    match w0 with
+    | Some w =>
+        let w1 := epoch_step K7 solve7 w (Refresh a1) in
+        w_sh w1 = w_sh w /\ reconstructs_b K7 (w_sh w) ([1%N] ++ [2%N]) lam12 = true /\
+        feqb K7 (mixed_recon K7 w w1 [1%N] [2%N] lam12) (z 3) = false /\
+        feqb K7 (recon K7 [1%N; 2%N] lam12 (share_in w1)) (z 3) = true
+    | None => False
+    end.
+  Proof. vm_compute. repeat split; reflexivity. Qed.
+
+  Lemma ex_zero :
+    match hjky_cols K7 zs12 (sa_rnd1 a1) with
+    | Some zc => (match hjky_party K7 zs12 zc 1%N with Ok _ => true | _ => false end) = true /\
+                 wf_sharing_b zs12 = true
+    | None => False
+    end.
+  Proof. vm_compute. split; reflexivity. Qed.
+End Ex7.
